@@ -89,6 +89,26 @@ def run(ctx):
 def _list_shape(ctx, p, v, allow):
     if allow is None:
         return False, "the list answer does not depend on the listing option"
+    if v is not None and v[0] == "coll":
+        # nameplates = []; for nid in ids: nameplates.append({"id": nid})
+        adds = [a for a in ctx.model.interp.coll_adds.get(v[1], [])
+                if tuple(a["pc"][:len(p.pc)]) == tuple(p.pc[:len(a["pc"])])]
+        if len(adds) == 1 and adds[0]["elem"][0] == "dictlit":
+            el = adds[0]["elem"]
+            inner = el[1][0][1] if len(el[1]) == 1 else None
+            extra = [c for c in adds[0]["pc"][len(p.pc):]]
+            in_loop_conds = [c for c in adds[0]["pc"]
+                             if c[2] is not None and c[2][0] == adds[0]["site"][0] and
+                             abs(c[2][1] - adds[0]["site"][1]) <= 3 and
+                             c[2][1] > v[1][1]]
+            if inner is not None and inner[0] == "elem" and not in_loop_conds:
+                v = ("comp", "list", el, inner[1], (), adds[0]["site"])
+            if allow is False and inner is not None and inner[0] == "elem":
+                src = strip_wrappers(inner[1])
+                if src[0] == "coll" and not ctx.model.interp.coll_adds.get(src[1]):
+                    return True, ""
+        elif not adds and allow is False:
+            return True, ""
     if v is None or v[0] != "comp" or v[4]:
         return False, "the answer is %s" % show(v)[:80]
     elt, it = v[2], strip_wrappers(v[3])
